@@ -2,4 +2,5 @@ import TinyFlux.Audit.Tool
 import TinyFlux.Props.C02
 import TinyFlux.Props.C02State
 import TinyFlux.Props.C02Witness
+import TinyFlux.Props.C02Mirror
 #audit TinyFlux.Props.C02
